@@ -40,6 +40,32 @@ def main():
             return _pe(*a, **k)
         traceback.format_exception, traceback.print_exception = my_format_exception, my_print_exception
         warnings.simplefilter('ignore', category=ResourceWarning)
+    if spec.get('warmup_run'):
+        # an earlier run in the same interpreter, after which the embedding program changes the state again: whatever a
+        # feature remembers must be remembered per run, not per process
+        import gc
+        import traceback
+        import warnings
+        wcap = io.TextIOWrapper(io.BytesIO(), encoding='utf-8', errors='backslashreplace', write_through=True)
+        sys.stdout, sys.stderr = wcap, wcap
+        try:
+            Runner(defaults=spec.get('defaults', []), args=['prog'] + spec['args'],
+                   script_parts=spec.get('script_parts', ['-m', 'zope.testrunner']), cwd=spec['dir']).run()
+        except BaseException:      # noqa: only the second run is observed
+            pass
+        sys.stdout, sys.stderr = real_stdout, sys.__stderr__
+        open(os.environ['VW_TRACE'], 'w').close()
+        gc.set_threshold(333, 7, 3)
+        gc.set_debug(0)
+        _fe2, _pe2 = traceback.format_exception, traceback.print_exception
+
+        def second_format_exception(*a, **k):
+            return _fe2(*a, **k)
+
+        def second_print_exception(*a, **k):
+            return _pe2(*a, **k)
+        traceback.format_exception, traceback.print_exception = second_format_exception, second_print_exception
+        warnings.simplefilter('default', category=DeprecationWarning)
     sys.stdout, sys.stderr = cap, cap_err
     before = worldlib.snapshot()
     obs = {'aborted': None}
